@@ -215,7 +215,7 @@ func prepare(pc0 *propCfg, engineName string) string {
 		os.RemoveAll(gen)
 		args := []string{"-repo", repoDir, "-out", gen, "-overlay", filepath.Join(verifDir, "overlay"),
 			"-pkgs", "./pkg/...,./cmd/plugins/...", "-subst", filepath.Join(verifDir, "verifgen", "subst.json"),
-			"-sync", "./pkg/resmgr,./pkg/resmgr/cache",
+			"-sync", "./pkg/resmgr,./pkg/resmgr/cache,./pkg/metrics",
 			"-touch", "pkg/resmgr/cache:cache:cache,pkg/resmgr/cache:pod:cache,pkg/resmgr/cache:container:cache,pkg/resmgr/policy:policy:policy",
 			"-transplant", "cmd/plugins/memory-qos/main.go:" + verifDir + "/engines/annsim/memqos/plugin_gen.go:memqos," +
 				"cmd/plugins/memtierd/main.go:" + verifDir + "/engines/annsim/memtierd/plugin_gen.go:memtierd," +
